@@ -443,6 +443,111 @@ class Spec:
             return nd["imposed"] != "RO"
         return nd["imposed"] != "WO"
 
+    # --- the complete answer (values AND failures), from the evaluation order of the property's conjuncts:
+    #      implemented, available, [not locked], imposed mode, then what the value is drawn from / written to, THROUGH
+    #      pValue / pValueCopy / indexed entries / converter pValue / formula variables.  `a && b`: b only when a said
+    #      yes; a list of targets / variables: all are asked in order, the first failure wins.
+    #      Codes as the harness prints them: 0 no, 1 yes, 100 + class failure, 190 the kind has no such query.
+    def kd(self, m):
+        return self.g[m]["kind"] if m < len(self.g) else "Other"
+
+    @staticmethod
+    def seq(a, rest):
+        return rest() if a == 1 else a
+
+    @staticmethod
+    def amp(answers):
+        for a in answers:
+            if a >= 100:
+                return a
+        return 1 if all(a == 1 for a in answers) else 0
+
+    def ctl_code(self, ref, dflt):
+        if ref is None:
+            return 1 if dflt else 0
+        try:
+            return 1 if self.sim.truth(ref) else 0
+        except EvalError as e:
+            return 100 + e.cls
+
+    def base_code(self, nd, write):
+        def locked():
+            c = self.ctl_code(nd["lock"], False)
+            return c if c >= 100 else 1 - c
+        mode = (nd["imposed"] != "RO") if write else (nd["imposed"] != "WO")
+        tail = lambda: 1 if mode else 0
+        if write:
+            tail2 = lambda: self.seq(locked(), tail)
+        else:
+            tail2 = tail
+        return self.seq(self.ctl_code(nd["impl"], True), lambda: self.seq(self.ctl_code(nd["avail"], True), tail2))
+
+    def answer(self, n, write):
+        key = (n, write)
+        if not hasattr(self, "ac"):
+            self.ac = {}
+        if key not in self.ac:
+            self.ac[key] = self._answer(n, write)
+        return self.ac[key]
+
+    def num_ans(self, m, write):
+        return self.answer(m, write) if self.kd(m) in NUMERIC else 0
+
+    def iop_ans(self, e, write):
+        return 1 if e[0] == "slot" else self.num_ans(e[1], write)
+
+    def var_ans(self, m, write):
+        return self.answer(m, write) if self.kd(m) in VARKINDS else 132
+
+    def _answer(self, n, write):
+        if n >= len(self.g):
+            return 190
+        nd = self.g[n]
+        k, v = nd["kind"], nd["value"]
+        if k == "Register" or (k == "Command" and not write):
+            return 190
+        if write and k in ("IntSwissKnife", "SwissKnife"):
+            return 0
+        base = self.base_code(nd, write)
+        if k in REG_KINDS:
+            acc = nd["access"] or "RO"
+            return self.seq(base, lambda: 1 if (acc != "RO" if write else acc != "WO") else 0)
+        if k in ("Integer", "Float"):
+            if v[0] in ("slot", "node"):
+                return self.seq(base, lambda: self.iop_ans(v, write))
+            if v[0] == "pvalue":
+                if write:
+                    return self.seq(base, lambda: self.amp([self.num_ans(m, True) for m in [v[1]] + list(v[2])]))
+                return self.seq(base, lambda: self.num_ans(v[1], False))
+
+            def indexed():
+                if self.kd(v[1]) not in INT_KINDS:
+                    return 132
+
+                def entry():
+                    try:
+                        i = self.sim.num(v[1])
+                    except EvalError as e:
+                        return 100 + e.cls
+                    for ix, e in v[2]:
+                        if ix == i:
+                            return self.iop_ans(e, write)
+                    return self.iop_ans(v[3], write)
+                return self.seq(self.answer(v[1], False), entry)      # the index must be READABLE for both queries
+            return self.seq(base, indexed)
+        if k in ("Boolean", "Enumeration", "Command"):
+            return self.seq(base, lambda: self.iop_ans(v, write))
+        if k == "String":
+            if v[0] == "slot":
+                return self.seq(base, lambda: 1)
+            return self.seq(base, lambda: self.answer(v[1], write) if self.kd(v[1]) in STRING_KINDS else 132)
+        if k in ("IntConverter", "Converter"):
+            return self.seq(base, lambda: self.seq(self.var_ans(nd["pvalue"], write),
+                                                   lambda: self.amp([self.var_ans(m, False) for m in nd["vars"]])))
+        if k in ("IntSwissKnife", "SwissKnife"):
+            return self.seq(base, lambda: self.amp([self.var_ans(m, False) for m in nd["vars"]]))
+        raise ValueError(k)
+
     # --- "every controlling node and value source reachable from n evaluates, references are well-kinded"
     def node_refs(self, n):
         nd = self.g[n]
@@ -530,14 +635,14 @@ class Spec:
         """an immediate is readable; a node supplies a number only if it is of a numeric kind"""
         if e[0] == "slot":
             return True
-        if self.g[e[1]]["kind"] not in NUMERIC:
+        if self.kd(e[1]) not in NUMERIC:
             return False
         return self.readable(e[1])
 
     def src_w(self, e):
         if e[0] == "slot":
             return True          # a value held by the description itself is a variable, not a constant
-        if self.g[e[1]]["kind"] not in NUMERIC:
+        if self.kd(e[1]) not in NUMERIC:
             return False
         return self.writable(e[1])
 
